@@ -7,8 +7,8 @@ use crate::ug::build::*;
 use serde_json::{Value, json};
 
 pub const RECEIVERS: [&str; 11] = ["int32", "string", "bool", "S", "E2", "Box[int32]", "Box[string]", "float64", "int8", "uint64", "unit"];
-pub const KINDS: [&str; 9] =
-    ["inherent", "trait-one-impl", "trait-two-impls", "two-traits-same-name", "dyn-containers", "dyn-builtin-containers", "dyn-direct", "coercion-in-receiver", "receiver-expression-forms"];
+pub const KINDS: [&str; 14] =
+    ["inherent", "trait-one-impl", "trait-two-impls", "two-traits-same-name", "dyn-containers", "dyn-builtin-containers", "dyn-direct", "coercion-in-receiver", "receiver-expression-forms", "dyn-argument:trait-path", "dyn-argument:bound-path", "dyn-argument:bound-dot", "dyn-argument:inherent-path", "dyn-argument:inherent-dot"];
 
 fn rty(name: &str) -> Ty {
     match name {
@@ -258,6 +258,63 @@ pub fn build(kind: &str, recv: &str, other: &str, nargs: usize) -> Option<Progra
                 }
             }
         }
+        k if k.starts_with("dyn-argument:") => {
+            let form_wanted = &k["dyn-argument:".len()..];
+            if form_wanted.starts_with("inherent") && !matches!(recv, "S" | "E2") {
+                return None;
+            }
+            // a method whose parameter is `dyn Tr`, called with a concrete value that must be coerced
+            // at the call site, in every call form
+            if other == recv {
+                return None;
+            }
+            let dt = Ty::Dyn("Tr".into());
+            items.push(Item::Trait(trait_sig("Tr")));
+            items.push(Item::Impl(ImplDef { generics: vec![], trait_name: Some("Tr".into()), for_ty: rty(other), methods: vec![method_def(&mut n, "m", other, nargs, "trB")] }));
+            let y = n.fresh("y");
+            main.push(let_t(y, rty(other), rval(other, 2)));
+            let coerced = || E::ToDyn("Tr".into(), Box::new(v(y)), rty(other));
+            let pd_body = |n: &mut Names, label: &str, name: &str| -> FnDef {
+                let (sf, d) = (n.fresh("self"), n.fresh("d"));
+                let mut inner = vec![v(d)];
+                inner.extend((0..nargs).map(|i| int(50 + i as i128)));
+                FnDef {
+                    name: name.into(),
+                    generics: vec![],
+                    bounds: vec![],
+                    params: vec![(sf, rty(recv)), (d, Ty::Dyn("Tr".into()))],
+                    ret: Some(Ty::Str),
+                    body: add(add(s(&format!("{}:", label)), rdesc(recv, v(sf))), add(s("/"), E::TraitCall("Tr".into(), "m".into(), CallForm::Path, inner, Ty::Dyn("Tr".into())))),
+                }
+            };
+            items.push(Item::Trait(TraitDef { name: "Tp".into(), methods: vec![("pd".into(), vec![Ty::Param("Self".into()), dt.clone()], Ty::Str)] }));
+            items.push(Item::Impl(ImplDef { generics: vec![], trait_name: Some("Tp".into()), for_ty: rty(recv), methods: vec![pd_body(&mut n, "tp", "pd")] }));
+            // through a bound, the argument still concrete inside the generic function
+            for (fname, form) in [("via_tp_path", CallForm::Path), ("via_tp_dot", CallForm::Dot)] {
+                if (fname == "via_tp_path") != (form_wanted == "bound-path") || !form_wanted.starts_with("bound") {
+                    continue;
+                }
+                let (u, k) = (n.fresh("u"), n.fresh("k"));
+                items.push(Item::Fn(FnDef {
+                    name: fname.into(),
+                    generics: vec!["U".into()],
+                    bounds: vec![("U".into(), vec!["Tp".into()])],
+                    params: vec![(u, Ty::Param("U".into())), (k, rty(other))],
+                    ret: Some(Ty::Str),
+                    body: E::TraitCall("Tp".into(), "pd".into(), form, vec![v(u), E::ToDyn("Tr".into(), Box::new(v(k)), rty(other))], Ty::Param("U".into())),
+                }));
+            }
+            match form_wanted {
+                "trait-path" => main.push(st(println(E::TraitCall("Tp".into(), "pd".into(), CallForm::Path, vec![v(x), coerced()], rty(recv))))),
+                "bound-path" => main.push(st(println(callg("via_tp_path", vec![rty(recv)], vec![v(x), v(y)])))),
+                "bound-dot" => main.push(st(println(callg("via_tp_dot", vec![rty(recv)], vec![v(x), v(y)])))),
+                _ => {
+                    items.push(Item::Impl(ImplDef { generics: vec![], trait_name: None, for_ty: rty(recv), methods: vec![pd_body(&mut n, "inh", "pi")] }));
+                    let form = if form_wanted == "inherent-path" { CallForm::Path } else { CallForm::Dot };
+                    main.push(st(println(E::Inherent(type_head(recv).into(), "pi".into(), form, vec![v(x), coerced()], vec![]))));
+                }
+            }
+        }
         _ => return None,
     }
     main.push(st(println(s("done"))));
@@ -319,7 +376,7 @@ impl Family for Methods {
         &["C17", "C01", "C02", "C03", "C04"]
     }
     fn rule(&self) -> &'static str {
-        "receiver types {int32,string,bool,S,E2,Box[int32],Box[string],float64,int8,uint64,unit} x 0-2 extra arguments x {inherent, trait with one impl, trait with impls for two receiver types, two traits with the same method name, dyn values through a destructured tuple, a struct field and an enum payload, a literal / constructor expression coerced to dyn directly, a path-form call whose receiver is a call with a dyn-coerced argument, a path-form call whose receiver is a match / if expression with a scrutinee or arm variable of the other implementing type, dyn values read back through array_get/vec_get (may be rejected: inference limitation, tagged)}; each program calls every applicable form (x.m(a), T::m(x,a), Tr::m(x,a), through a T: Tr bound in dot and path form, Tr::m(d,a) on the value coerced to dyn Tr) and prints each result; 12 + 30 negative programs (one method name defined by two inherent impls applying to the same receiver (generic + exact instance, two blocks); dyn coercion without impl, ambiguous method under two bounds/traits, unsatisfied bound, unknown method, standalone method value; the same method name in two traits at every pair of arities 0..2 called in dot form through two bounds and on a concrete receiver with every fitting argument count) that must be rejected with a diagnostic. non-trivial = programs with >= 2 impls; distinct = distinct source text"
+        "receiver types {int32,string,bool,S,E2,Box[int32],Box[string],float64,int8,uint64,unit} x 0-2 extra arguments x {inherent, trait with one impl, trait with impls for two receiver types, two traits with the same method name, dyn values through a destructured tuple, a struct field and an enum payload, a literal / constructor expression coerced to dyn directly, a path-form call whose receiver is a call with a dyn-coerced argument, a method with a `dyn Tr` parameter called in every form with a concrete argument that must be coerced, a path-form call whose receiver is a match / if expression with a scrutinee or arm variable of the other implementing type, dyn values read back through array_get/vec_get (may be rejected: inference limitation, tagged)}; each program calls every applicable form (x.m(a), T::m(x,a), Tr::m(x,a), through a T: Tr bound in dot and path form, Tr::m(d,a) on the value coerced to dyn Tr) and prints each result; 12 + 30 negative programs (one method name defined by two inherent impls applying to the same receiver (generic + exact instance, two blocks); dyn coercion without impl, ambiguous method under two bounds/traits, unsatisfied bound, unknown method, standalone method value; the same method name in two traits at every pair of arities 0..2 called in dot form through two bounds and on a concrete receiver with every fitting argument count) that must be rejected with a diagnostic. non-trivial = programs with >= 2 impls; distinct = distinct source text"
     }
     fn cases(&self, _tier: Tier) -> Box<dyn Iterator<Item = Value> + '_> {
         let mut v = Vec::new();
